@@ -3,20 +3,64 @@
 import json, os
 HERE = os.path.dirname(os.path.abspath(__file__))
 
+TECH = 'contract-based deductive verification: VCs generated from the real Python AST + sidecar contracts, discharged by z3/cvc5 (pyvc); bounded run-time contract checking on enumerated inputs as the labelled stand-in where functions are out of reach'
+NOTE = 'Trusted: pyvc encoding of the Python subset (cross-checked on every run by executing the same contracts on the real functions), z3 5.1/cvc5, ints mathematical, floats as exact reals, no aliasing between distinct container parameters; assumed callee contracts listed in the evidence; bounded part: reference semantics bounded/specsem.py, enumerated corpus of DESIGN.md Appendix C; known findings in KNOWN_FINDINGS.json.'
+
 CLAIMED = {
- # id: (category, text, note, technique)
+ 'C01': ('other',
+         'Decoding contract (returns, final, feasible, admitted architecture) evaluated at run time on every vector of the declared space of every corpus graph for both encoders (bounded, exhaustive per graph); the kernel functions that merge fixed values and agree enumeration with decoding (ApplyIterSpec, _get_all_des_var_values) are proved for all inputs.',
+         NOTE, TECH),
+ 'C02': ('other',
+         'Closure/minimality of the confirmed-node traversal is proved for all graphs (deductive); instance = closure, order independence and feasible-leaf set are contracts on get_for_apply_selection_choice evaluated along all choice orders of the corpus (bounded).',
+         NOTE, TECH),
+ 'C03': ('other',
+         'Clamp, fixed-vector and activeness kernels of the connection encoders are proved (correct_vector_size/bounds, _correct_is_active); canonical-fixed-point and vector-describes-instance clauses are run-time contracts over the full declared space of every corpus graph (bounded).',
+         NOTE, TECH),
+ 'C04': ('other',
+         'Enumeration = reference architectures (sound, complete, one each), counts and imputation ratio are run-time contracts on get_all_discrete_x / get_n_valid_designs over the corpus with and without one fixed variable (bounded); the scenario-merging numpy code is outside the deductive reach.',
+         NOTE, TECH),
+ 'C05': ('other',
+         'History-independence: after every operation history (length 2 quick / 3 thorough over decode, enumerate, statistics, mutate instance, pickle, fix, free) the processor must be observationally equal to a fresh one (bounded, exhaustive over the history alphabet); frame clauses of the analyzer proved where reached.',
+         NOTE, TECH),
+ 'C06': ('other',
+         'The incompatibility test on confirmed nodes is under deductive contract; enforcement and no-over-pruning are contracts evaluated on every node of the choice tree of the INC corpus (bounded).',
+         NOTE, TECH),
+ 'C07': ('other',
+         'Activeness/imputation kernel (_correct_is_active, inactive canonical value, get_graph tail) proved; agreement between enumeration, create=True/False and corrected raw vectors is a run-time contract over all vectors of the corpus (bounded).',
+         NOTE, TECH),
+ 'C08': ('other',
+         'Every derive/decode operation followed by re-observation of all live graph objects through the public API (bounded); frame clauses of copy/derive functions proved where reached.',
+         NOTE, TECH),
  'C09': ('other',
-         'The jit-compiled validity test (_check_conns, _validate_matrix) is proved equivalent to the statement-level definition of a valid connection matrix for all matrices/settings (deductive, unbounded); enumeration and counting are only bounded.',
-         'Trusted: pyvc encoding incl. numpy 1-D/2-D model, numba compiles Python semantics, int64 as mathematical ints, lemma sum-of-nonnegatives >= 0; enumeration bounded only.',
-         'contract-based deductive verification (self-generated VCs from the real AST + sidecar contracts, z3/cvc5) with bounded run-time contract checking as labelled stand-in'),
- 'C17': ('proof',
-         'Every function between the metric nodes and the evaluation result (_can_be_objective, _can_be_constraint, _get_metrics, _categorize_metrics, _choose_metric_type, Objective/Constraint.from_metric_node and __init__, DSGEvaluator.evaluate) is under contract; the clauses of the property statement are postconditions and all generated obligations are discharged by z3/cvc5 for all inputs. The link permanent_nodes = nodes existing in every architecture is the closure contract of C02 plus a bounded corroboration.',
-         'Trusted: pyvc encoding, z3/cvc5, NaN as a distinguished constant, metric type is None or a MetricType, cached properties modelled as fields (metric_nodes sorted by name, permanent_nodes = _get_permanent_nodes()), assumption A17-perm (every decoded instance contains the confirmed initial nodes; decided bounded under C02).',
-         'contract-based deductive verification (self-generated VCs from the real AST + sidecar contracts, z3/cvc5); bounded run-time contract check of the assumed permanent-node link'),
+         'The jit-compiled validity test (_check_conns, _validate_matrix) is proved equivalent to the statement-level definition of a valid connection matrix for all matrices and settings (deductive, unbounded); enumeration, counting and the composed validate_matrix are checked against brute force on enumerated settings (bounded).',
+         NOTE, TECH),
+ 'C10': ('other',
+         'Totality/range/fixed-point/onto/listing clauses as run-time contracts for every registry encoder x imputer over the full vector space [-1..n_opts] of enumerated settings (bounded); vector-size and clamp kernels proved.',
+         NOTE, TECH),
+ 'C11': ('other',
+         'Connection sets offered per selection scenario = brute-force valid sets; applied set yields precisely those edges (bounded); connector degree functions under deductive contract where reached.',
+         NOTE, TECH),
+ 'C13': ('other',
+         'Index functions checked exhaustively on the bound the property names (all rows <=3 columns over -1..3) and offered architectures = reference for both encoders (bounded); removed-option function under deductive contract where reached.',
+         NOTE, TECH),
+ 'C14': ('other',
+         'Fast-encoder soundness/onto/valid-unchanged as run-time contracts over the full declared space (bounded); neighbourhood iteration kernel under deductive contract where reached.',
+         NOTE, TECH),
+ 'C15': ('other',
+         'fix/free sequences compared with filtering the unfixed enumeration and with a fresh processor (bounded); bookkeeping functions (fix_des_var, _get_all_des_var_values) under deductive contract where reached.',
+         NOTE, TECH),
  'C16': ('other',
-         'Clamp/report clauses of the design-variable value path are discharged deductively for all inputs (pyvc: VCs generated from the real source, z3/cvc5); the existence-coverage clause is only bounded.',
-         'Trusted: pyvc encoding of the Python subset, z3/cvc5, floats as exact reals, ints mathematical; assumed callee contracts are listed in the evidence.',
-         'contract-based deductive verification (self-generated VCs from the real AST + sidecar contracts, z3/cvc5) with bounded run-time contract checking as labelled stand-in'),
+         'Clamp/report clauses of DesignVariableNode.correct_value proved for all inputs (deductive); existence coverage and linked propagation are run-time contracts on get_graph / set_des_var_value over the DV corpus (bounded).',
+         NOTE, TECH),
+ 'C17': ('proof',
+         'Every function between the metric nodes and the evaluation result (_can_be_objective, _can_be_constraint, _get_metrics, _categorize_metrics, _choose_metric_type, Objective/Constraint.from_metric_node and __init__, DSGEvaluator.evaluate) is under contract; the clauses of the property statement are postconditions and all generated obligations are discharged by z3/cvc5 for all inputs. The link permanent node = exists in every architecture is an assumption corroborated by a bounded run-time contract.',
+         NOTE, TECH),
+ 'C18': ('exploration',
+         'hash/equality/fingerprint compare Python hash() values: no contract within reach of an SMT-based verifier states or decides them. Bounded only: copy/edit/pickle/export contracts over the corpus; hash-seed sweep in subprocesses in the thorough tier.',
+         NOTE, TECH),
+ 'C20': ('other',
+         'Mapped option taken / rejected configurations as run-time contracts over all architectures of the corpus sources (bounded); resolve functions under deductive contract where reached.',
+         NOTE, TECH),
 }
 
 NOT_APPLICABLE = {
